@@ -1,1 +1,31 @@
-From Emd Require Import Base.Prelude Model.H5 Model.Emd Model.Reader.
+(* C08 -- partial read returns exactly the selected part and never modifies the file.  Statements only.
+   PARTIAL: proved are (1) over the open-mode table GENERATED from the sources: every h5py.File( call on the
+   read path uses the literal 'r'; (2) compositionality of the tree reader: what a full read holds below a node for
+   each tagged child is exactly what reading that child alone (tree=False) plus its branch returns; (3) a read is
+   a function of the file only, and a path that is not in the file is an error.  Selection per tree option on real
+   files, sha256 before/after every read: correspondence + oracle.  Byte immutability under mode 'r' is HDF5's. *)
+From Emd Require Import Base.Prelude Model.H5 Model.Emd Model.Reader Generated.Tables Proofs.P08.
+
+Theorem C08_read_path_opens_read_only :
+  Forall (fun m => m = "r") read_path_open_modes /\ read_path_open_modes <> [].
+Proof. exact read_path_readonly. Qed.
+Print Assumptions C08_read_path_opens_read_only.
+
+Theorem C08_full_read_holds_what_partial_reads_return :
+  forall a l ks k c n sub,
+    populate (G a l) = Ok ks -> In (k, c) l -> is_data_group c = true ->
+    read_single_node k c = Ok n -> populate c = Ok sub -> In (with_kids n sub) ks.
+Proof. exact populate_member. Qed.
+Print Assumptions C08_full_read_holds_what_partial_reads_return.
+
+(* a path whose next component is not a link of the current group is reported as an error *)
+Theorem C08_missing_path_is_an_error :
+  forall a l k q, get l k = None -> exists e, walk_groups (G a l) (k :: q) = Err e.
+Proof. intros a l k q H. cbn. rewrite H. eauto. Qed.
+Print Assumptions C08_missing_path_is_an_error.
+
+(* a leading '/' is ignored *)
+Theorem C08_leading_slash_ignored :
+  forall s, remove_first_empty (split_slash ("/" +++ s)) = split_slash s.
+Proof. intros s. unfold split_slash. cbn. reflexivity. Qed.
+Print Assumptions C08_leading_slash_ignored.
